@@ -238,6 +238,8 @@ def part2(rep, prog, ix):
         kw['extra_summaries'] = {BUILDER: summary}
         return orig_run(**kw)
     fs.run = run_with
+    from .frame_common import diagnostic_offsets
+    DIAG[0] = diagnostic_offsets(prog)
     res, obs, stats = run_regions(fs, regions=['topo.qlt', 'quick.qlt'])
     # "exactly the platform's bytes": nothing the response is built from may be uninitialised scratch memory, e.g. the part of
     # a getter's destination the getter did not write
@@ -320,4 +322,8 @@ def unchanged_cell_plain(st, k, w, t):
         pass
     s = _S()
     s.st = st
+    s.diag = DIAG[0]
     return unchanged_cell(s, k, w, t)
+
+
+DIAG = [None]
